@@ -46,7 +46,7 @@ func checkC03(c *Ctx, r *Report) {
 		var lit map[string]ssa.Value
 		var litStore *ssa.Store
 		allInstrs(s.Fn, false, func(in ssa.Instruction) {
-			if sel, _, st, ok := storeSel(in); ok && sel == "v2SessionLayer" && mustPrecede(s.Fn, st, ser) {
+			if sel, _, st, ok := storeSel(in); ok && sel == fSess && mustPrecede(s.Fn, st, ser) {
 				if f, _, isLit := complitFields(st.Val); isLit {
 					lit, litStore = f, st
 				}
@@ -72,9 +72,9 @@ func checkC03(c *Ctx, r *Report) {
 				}
 			}
 			r.Check(okPD, name+"|PayloadDescriptor", litStore.Pos(), "IPMI message payload", "payload descriptor is not the IPMI message payload type")
-			r.Check(loadOf(lit["IntegrityAlgorithm"], "integrityAlgorithm"), name+"|IntegrityAlgorithm", litStore.Pos(), "← s.integrityAlgorithm", "the wrapper is not given the session's integrity hash (keyed by K1)")
+			r.Check(loadOf(lit["IntegrityAlgorithm"], fInteg), name+"|IntegrityAlgorithm", litStore.Pos(), "← s.integrityAlgorithm", "the wrapper is not given the session's integrity hash (keyed by K1)")
 			okCL := false
-			if call, ok := lit["ConfidentialityLayerType"].(*ssa.Call); ok && call.Call.IsInvoke() && call.Call.Method.Name() == "LayerType" && loadOf(call.Call.Value, "confidentialityLayer") {
+			if call, ok := lit["ConfidentialityLayerType"].(*ssa.Call); ok && call.Call.IsInvoke() && call.Call.Method.Name() == "LayerType" && loadOf(call.Call.Value, fConf) {
 				okCL = true
 			}
 			r.Check(okCL, name+"|ConfidentialityLayerType", litStore.Pos(), "← s.confidentialityLayer.LayerType()", "the wrapper's confidentiality layer type is not the session's confidentiality layer")
@@ -102,10 +102,10 @@ func checkC03(c *Ctx, r *Report) {
 				sels = append(sels, apOf(v).SelString())
 			}
 		}
-		r.Check(strings.Join(sels, ",") == "rmcpLayer,v2SessionLayer,*confidentialityLayer,messageLayer,call(Request)", name+"|layers", ser.Pos(), strings.Join(sels, ","), "layer stack is ["+strings.Join(sels, ",")+"], want RMCP, session wrapper, confidentiality layer, message, request")
+		r.Check(strings.Join(sels, ",") == fRmcp+","+fSess+",*"+fConf+","+fMsg+",call(Request)", name+"|layers", ser.Pos(), strings.Join(sels, ","), "layer stack is ["+strings.Join(sels, ",")+"], want RMCP, session wrapper, confidentiality layer, message, request")
 		okBuf := false
-		if ld, ok := ser.Call.Args[0].(*ssa.UnOp); ok && apOf(ld.X).SelString() == "buffer" {
-			if bc, ok := s.Send.Call.Args[1].(*ssa.Call); ok && bc.Call.IsInvoke() && bc.Call.Method.Name() == "Bytes" && apOf(bc.Call.Value).SelString() == "buffer" && mustPrecede(s.Fn, ser, s.Send) {
+		if ld, ok := ser.Call.Args[0].(*ssa.UnOp); ok && apOf(ld.X).SelString() == fBuf {
+			if bc, ok := s.Send.Call.Args[1].(*ssa.Call); ok && bc.Call.IsInvoke() && bc.Call.Method.Name() == "Bytes" && apOf(bc.Call.Value).SelString() == fBuf && mustPrecede(s.Fn, ser, s.Send) {
 				okBuf = true
 			}
 		}
